@@ -5,6 +5,14 @@ from pathlib import Path
 
 V = Path(__file__).resolve().parent.parent
 src = json.loads((V / "tools" / "manifest_src.json").read_text())
+src["checks"] = {p.stem: json.loads(p.read_text()) for p in sorted((V / "tools" / "manifest.d").glob("C*.json"))}
+# known_findings.json is assembled from tools/findings.d/Cnn.json (one list per property; never written at run time)
+kf = []
+for p in sorted((V / "tools" / "findings.d").glob("C*.json")):
+    kf.extend(json.loads(p.read_text()))
+(V / "known_findings.json").write_text(json.dumps({
+    "comment": "Assembled by tools/mkmanifest.py from tools/findings.d/*.json (edited by hand, committed); never written at run time. status=known entries suppress exactly the listed key (printed as KNOWN-FINDING); status=fixed entries suppress nothing.",
+    "findings": kf}, indent=1))
 props = [json.loads(l)["id"] for l in (V / "properties.jsonl").read_text().splitlines() if l.strip()]
 checks = []
 for pid in props:
